@@ -26,7 +26,7 @@ INTS = {
 }
 FLOATS = {"f32": 32, "f64": 64}
 PRIMS = list(INTS) + list(FLOATS) + ["bool", "char", "DiplomatChar"]
-SLICE_PRIMS = list(INTS) + list(FLOATS) + ["bool", "DiplomatByte"]
+SLICE_PRIMS = list(INTS) + list(FLOATS) + ["bool", "DiplomatChar", "DiplomatByte"]
 
 KEYWORD_PARAMS = ["this", "int", "class", "default", "new", "register", "template", "char", "double", "typename",
                   "namespace", "delete", "operator", "signed", "union", "volatile", "auto", "switch", "short", "long",
